@@ -30,6 +30,12 @@ def run(chk):
         if k % 6 == 5 and cfg["cls"] == "EvolvedMF":
             cfg["stellar_evolution"] = False        # escape-only runs: the reported moments still use the turn-off-truncated bin of the requested age
         cfgs.append(cfg)
+    # always present (whatever the random draws): the default layout with (a) full retention at two ages - the reference of the few-object
+    # ejection stage below, (b) half of the BH mass ejected at ages inside and after the BH-formation epoch (bins populated early, empty later),
+    # (c) fifty million stars at a young age (every bin above the turn-off must hold no more than the 0.1-object residue)
+    base_ = dict(cls="EvolvedMF", m_breaks=[0.1, 0.5, 1.0, 100.0], a_slopes=[-0.5, -1.3, -2.5], nbins=[5, 5, 20], FeH=-1.0, N0=5e5, BH_IFMR_method="banerjee20",
+                 NS_ret=0.1, BH_ret_int=1.0, BH_ret_dyn=1.0, binning_method="default", esc_rate=0.0)
+    cfgs = [dict(base_, tout=[100.0, 12000.0]), dict(base_, tout=[4.0, 6.0, 100.0], BH_ret_dyn=0.5), dict(base_, tout=[50.0, 3000.0], N0=5e7)] + cfgs
     outs = FR.run_many(cfgs)
     # second stage: the same configurations at ages just after a stellar bin's lower edge turns off (the turn-off bin is then a thin
     # sliver that still holds stars): ages are lifetimes of lower_edge * (1 + delta), from the model's own lifetime row and bin edges
